@@ -19,6 +19,8 @@ import (
 	"go/parser"
 	"go/printer"
 	"go/token"
+	"go/types"
+	"golang.org/x/tools/go/packages"
 	"os"
 	"path/filepath"
 	"regexp"
@@ -48,7 +50,7 @@ func apply(src []byte, es []edit) []byte {
 }
 
 func main() {
-	t := flag.String("t", "wrap", "wrap|namedbool|invert")
+	t := flag.String("t", "wrap", "wrap|namedbool|invert|flipcmp|range2index")
 	repo := flag.String("repo", "/repo", "module root")
 	out := flag.String("out", "", "output directory")
 	only := flag.String("only", "", "regexp on repo-relative path")
@@ -63,6 +65,9 @@ func main() {
 	}
 	var pairs []string
 	nEdits := 0
+	if *t == "range2index" || *t == "timeflip" {
+		loadSliceRanges(*repo)
+	}
 	filepath.Walk(*repo, func(p string, fi os.FileInfo, err error) error {
 		if err != nil {
 			return nil
@@ -96,6 +101,12 @@ func main() {
 			res, n = namedbool(fset, f, src)
 		case "invert":
 			res, n = invert(fset, f, src)
+		case "flipcmp":
+			res, n = flipcmp(fset, f, src)
+		case "range2index":
+			res, n = range2index(fset, f, src, sliceRanges[p])
+		case "timeflip":
+			res, n = timeflip(fset, f, src, timeCalls[p])
 		default:
 			panic("unknown transformation")
 		}
@@ -339,4 +350,197 @@ func invert(fset *token.FileSet, f *ast.File, src []byte) ([]byte, int) {
 		return out.String()
 	}
 	return []byte(render(0, len(src))), n
+}
+
+// flipcmp: `a OP b` -> `b OP' a` for comparisons whose operands are simple and free of effects (identifiers, field
+// selections, literals, len/cap of such): the orientation of a comparison carries no meaning.
+func simpleOperand(e ast.Expr) bool {
+	switch x := e.(type) {
+	case *ast.Ident:
+		return true
+	case *ast.BasicLit:
+		return true
+	case *ast.SelectorExpr:
+		return simpleOperand(x.X)
+	case *ast.ParenExpr:
+		return simpleOperand(x.X)
+	case *ast.CallExpr:
+		if id, ok := x.Fun.(*ast.Ident); ok && (id.Name == "len" || id.Name == "cap") && len(x.Args) == 1 {
+			return simpleOperand(x.Args[0])
+		}
+	}
+	return false
+}
+
+func flipcmp(fset *token.FileSet, f *ast.File, src []byte) ([]byte, int) {
+	mirror := map[token.Token]string{token.EQL: "==", token.NEQ: "!=", token.LSS: ">", token.LEQ: ">=", token.GTR: "<", token.GEQ: "<="}
+	var es []edit
+	ast.Inspect(f, func(n ast.Node) bool {
+		// constant declarations and case clauses keep their form (a flipped untyped comparison is still fine, but
+		// array lengths and the like must stay constant expressions - they do; nothing to exclude)
+		be, ok := n.(*ast.BinaryExpr)
+		if !ok {
+			return true
+		}
+		op, isCmp := mirror[be.Op]
+		if !isCmp || !simpleOperand(be.X) || !simpleOperand(be.Y) {
+			return true
+		}
+		lo, hi := off(fset, be.Pos()), off(fset, be.End())
+		x := string(src[off(fset, be.X.Pos()):off(fset, be.X.End())])
+		y := string(src[off(fset, be.Y.Pos()):off(fset, be.Y.End())])
+		es = append(es, edit{lo, hi, y + " " + op + " " + x})
+		return false
+	})
+	if len(es) == 0 {
+		return src, 0
+	}
+	return apply(src, es), len(es)
+}
+
+// range2index: `for _, v := range xs {` / `for i, v := range xs {` over a slice -> `for i := range xs { v := xs[i]`,
+// where xs is a simple expression that the body does not assign to. The positions of the range statements over
+// slices come from a type-checked load (sliceRanges).
+var sliceRanges = map[string]map[int]bool{} // file -> offsets of RangeStmt whose X is a slice
+
+func loadSliceRanges(repo string) {
+	cfg := &packages.Config{Mode: packages.NeedName | packages.NeedFiles | packages.NeedSyntax | packages.NeedTypes | packages.NeedTypesInfo | packages.NeedImports | packages.NeedDeps, Dir: repo,
+		Env: append(os.Environ(), "GOFLAGS=-mod=mod", "GOPROXY=off", "GOSUMDB=off", "GOWORK=off")}
+	pkgs, err := packages.Load(cfg, "./...")
+	if err != nil {
+		fmt.Fprintln(os.Stderr, "load:", err)
+		return
+	}
+	for _, pk := range pkgs {
+		for _, f := range pk.Syntax {
+			name := pk.Fset.Position(f.Pos()).Filename
+			ast.Inspect(f, func(n ast.Node) bool {
+				if ce, ok := n.(*ast.CallExpr); ok && len(ce.Args) == 1 {
+					if se, ok := ce.Fun.(*ast.SelectorExpr); ok && (se.Sel.Name == "Before" || se.Sel.Name == "After") {
+						if sel := pk.TypesInfo.Selections[se]; sel != nil && sel.Recv().String() == "time.Time" {
+							if at, ok := pk.TypesInfo.Types[ce.Args[0]]; ok && at.Type.String() == "time.Time" {
+								if timeCalls[name] == nil {
+									timeCalls[name] = map[int]bool{}
+								}
+								timeCalls[name][pk.Fset.Position(ce.Pos()).Offset] = true
+							}
+						}
+					}
+				}
+				rs, ok := n.(*ast.RangeStmt)
+				if !ok {
+					return true
+				}
+				if tv, ok := pk.TypesInfo.Types[rs.X]; ok {
+					if _, isSlice := tv.Type.Underlying().(*types.Slice); isSlice {
+						if sliceRanges[name] == nil {
+							sliceRanges[name] = map[int]bool{}
+						}
+						sliceRanges[name][pk.Fset.Position(rs.Pos()).Offset] = true
+					}
+				}
+				return true
+			})
+		}
+	}
+}
+
+var r2iSerial int
+
+func range2index(fset *token.FileSet, f *ast.File, src []byte, slices map[int]bool) ([]byte, int) {
+	var es []edit
+	ast.Inspect(f, func(n ast.Node) bool {
+		rs, ok := n.(*ast.RangeStmt)
+		if !ok || !slices[off(fset, rs.Pos())] || rs.Tok != token.DEFINE || rs.Value == nil || !simpleOperand(rs.X) {
+			return true
+		}
+		v, ok := rs.Value.(*ast.Ident)
+		if !ok || v.Name == "_" {
+			return true
+		}
+		if _, isCall := rs.X.(*ast.CallExpr); isCall {
+			return true
+		}
+		xs := string(src[off(fset, rs.X.Pos()):off(fset, rs.X.End())])
+		// the body must not assign to xs (the range copy and xs would differ)
+		assigned := false
+		ast.Inspect(rs.Body, func(m ast.Node) bool {
+			switch y := m.(type) {
+			case *ast.AssignStmt:
+				for _, l := range y.Lhs {
+					ls := string(src[off(fset, l.Pos()):off(fset, l.End())])
+					if ls == xs || strings.HasPrefix(xs, ls+".") || strings.HasPrefix(ls, xs+"[") {
+						assigned = true
+					}
+				}
+			case *ast.UnaryExpr:
+				if y.Op == token.AND {
+					assigned = true // an address taken in the body: leave the loop alone
+				}
+			case *ast.FuncLit:
+				assigned = true // the per-iteration variable may be captured
+			}
+			return true
+		})
+		if assigned {
+			return true
+		}
+		idx := ""
+		if k, ok := rs.Key.(*ast.Ident); ok && k.Name != "_" {
+			idx = k.Name
+		} else {
+			r2iSerial++
+			idx = fmt.Sprintf("i%d__", r2iSerial)
+		}
+		head := "for " + idx + " := range " + xs + " {\n" + v.Name + " := " + xs + "[" + idx + "]\n"
+		es = append(es, edit{off(fset, rs.Pos()), off(fset, rs.Body.Lbrace) + 1, head})
+		return true
+	})
+	if len(es) == 0 {
+		return src, 0
+	}
+	return apply(src, es), len(es)
+}
+
+// timeflip: `a.Before(b)` -> `(b).After(a)` and `a.After(b)` -> `(b).Before(a)` for time.Time values whose expressions
+// are simple (no calls): the same comparison read from the other side.
+var timeCalls = map[string]map[int]bool{}
+
+func simpleTimeOperand(e ast.Expr) bool {
+	switch x := e.(type) {
+	case *ast.StarExpr:
+		return simpleOperand(x.X)
+	case *ast.ParenExpr:
+		return simpleTimeOperand(x.X)
+	}
+	if _, isCall := e.(*ast.CallExpr); isCall {
+		return false
+	}
+	return simpleOperand(e)
+}
+
+func timeflip(fset *token.FileSet, f *ast.File, src []byte, calls map[int]bool) ([]byte, int) {
+	var es []edit
+	ast.Inspect(f, func(n ast.Node) bool {
+		ce, ok := n.(*ast.CallExpr)
+		if !ok || !calls[off(fset, ce.Pos())] {
+			return true
+		}
+		se := ce.Fun.(*ast.SelectorExpr)
+		if !simpleTimeOperand(se.X) || !simpleTimeOperand(ce.Args[0]) {
+			return true
+		}
+		other := "After"
+		if se.Sel.Name == "After" {
+			other = "Before"
+		}
+		x := string(src[off(fset, se.X.Pos()):off(fset, se.X.End())])
+		y := string(src[off(fset, ce.Args[0].Pos()):off(fset, ce.Args[0].End())])
+		es = append(es, edit{off(fset, ce.Pos()), off(fset, ce.End()), "(" + y + ")." + other + "(" + x + ")"})
+		return false
+	})
+	if len(es) == 0 {
+		return src, 0
+	}
+	return apply(src, es), len(es)
 }
